@@ -105,10 +105,12 @@ def cell_world(tag, ci, updopt, upd, kind, state, stored_empty=False, eol='lf'):
     return w
 
 
-def clean_world(tag, ci, upd, sortopt, stale, sorted_file, eol='lf'):
+def clean_world(tag, ci, upd, sortopt, stale, sorted_file, eol='lf', updcall=None):
+    """updcall: the Config carries Update(true|false) and the second call brings a changed value (rewritten, or reported,
+    as the Match table says): what Clean may delete still follows the environment only"""
     w = World(tag)
     w.add(mode_line(ci, upd))
-    w.add(cfg_line(1, 'snaps', 'f', None, 'none'))
+    w.add(cfg_line(1, 'snaps', 'f', None, updcall or 'none'))
     ids = [b'TestC - 1', b'TestC - 2', b'TestC - 10'] if sorted_file else [b'TestC - 10', b'TestC - 1', b'TestC - 2']
     # under -count 1 the three calls below address TestC 1..3; use ordinals 1,2,3 instead
     ids = [b'TestC - 1', b'TestC - 2', b'TestC - 3'] if sorted_file else [b'TestC - 3', b'TestC - 1', b'TestC - 2']
@@ -123,7 +125,10 @@ def clean_world(tag, ci, upd, sortopt, stale, sorted_file, eol='lf'):
     w.add('fsput %s %s' % (hx('snaps/notes.txt'), hx(b'keep me')))
     w.add('begin 1 %s' % hx(b'TestC'))
     for k in (1, 2, 3):
-        w.add('snap 1 1 %s' % hx(b'v%d' % k), ('setup-call-passes', exp_silent))
+        if updcall and k == 2:
+            w.add('snap 1 1 %s' % hx(b'changed'))
+        else:
+            w.add('snap 1 1 %s' % hx(b'v%d' % k), ('setup-call-passes', exp_silent))
     w.add('end 1')
     ref = w.add('fsdump')
     deletes = (not ci) and upd in ('true', 'clean')
@@ -237,6 +242,10 @@ def all_cells(envfilter=None):
         for eol in ('crlf', 'gaps'):
             n += 1
             worlds.append(clean_world('clean-%d-%s' % (n, eol), ci, upd, sortopt, stale, sorted_file, eol=eol))
+        if stale:
+            for updcall in ('true', 'false'):
+                n += 1
+                worlds.append(clean_world('clean-%d-upd%s' % (n, updcall), ci, upd, sortopt, stale, sorted_file, updcall=updcall))
     for ci, upd, sortopt, shape in itertools.product([False, True], UPDS, ['-', '1'], ['empty', 'blank', 'unterminated', 'absent']):
         if envfilter and envfilter != (ci, upd):
             continue
